@@ -11,7 +11,7 @@ open Yorkie Yorkie.Crdt
 /-! ### the alphabet -/
 
 /-- an `Increase` of a live counter that is a member of a live object (a counter inside an array is
-    outside the alphabet: `redo_counter_in_array_witness`) -/
+    outside this alphabet) -/
 def GoodInc (H : Home) (d : Doc) (c : Ticket) (delta : Int) : Prop :=
   ∃ l v q fq, absNode d c = some (.cnt l v) ∧ wrap l delta = delta ∧ wrap l v = v ∧
     H.par c = some q ∧ absNode d q = some (.obj fq)
@@ -61,6 +61,43 @@ def idBound3 : UOp → Int → Prop
   | .arraySet _ target _ _, N => target.lamport ≤ N
   | .set _ _ v _, N => v.id.lamport ≤ N
   | .increase c _ _, N => c.lamport ≤ N
+
+theorem inv3_par (H : Home) (Y : Doc) (r : UOp) : (inv3 H Y r).par = r.par := by
+  cases r with
+  | add p prev val ts => rfl
+  | remove p u ts =>
+    simp only [inv3]
+    cases absNode Y p with
+    | none => simp only [removeRev]; cases Y u <;> rfl
+    | some b =>
+      cases b with
+      | arr l => simp only []; cases Y u <;> rfl
+      | prim r => simp only [removeRev]; cases Y u <;> rfl
+      | opq r => simp only [removeRev]; cases Y u <;> rfl
+      | cnt l v => simp only [removeRev]; cases Y u <;> rfl
+      | obj f => simp only [removeRev]; cases Y u <;> rfl
+  | set p k val ts =>
+    simp only [inv3]
+    cases absNode Y p with
+    | none => rfl
+    | some b =>
+      cases b with
+      | obj f =>
+        simp only [setRev]
+        cases f k with
+        | none => rfl
+        | some c => simp only []; cases Y c <;> rfl
+      | prim r => rfl
+      | opq r => rfl
+      | cnt l v => rfl
+      | arr l => rfl
+  | increase c delta ts =>
+    simp only [inv3]
+    cases absNode Y c with
+    | none => rfl
+    | some b => cases b <;> rfl
+  | move => rfl
+  | arraySet => rfl
 
 theorem idBound3_mono {op : UOp} {N N' : Int} (h : idBound3 op N) (hl : N ≤ N') : idBound3 op N' := by
   cases op <;> simp only [idBound3] at h ⊢ <;> first | omega | exact ⟨by omega, by omega⟩
